@@ -85,6 +85,25 @@ void suite_wire(int tier) {
         }
         free(d);
     }
+    /* the same queries on the same descriptor before and after destroy: a destroyed descriptor is unknown */
+    for (int t = 0; t < (tier ? 40 : 12); t++) {
+        cfg_t c = cfg_random(1);
+        struct ec_args a; memset(&a, 0, sizeof a); a.k = c.k; a.m = c.m; a.hd = c.hd; a.ct = CHKSUM_NONE;
+        int d = liberasurecode_instance_create((ec_backend_id_t)c.be, &a);
+        if (d <= 0) continue;
+        uint64_t lens[] = { 0, 1, 100, (uint64_t)c.k * 64, 65543, 1 << 20 };
+        int before[6][3];
+        for (int i = 0; i < 6; i++) { before[i][0] = liberasurecode_get_fragment_size(d, (int)lens[i]); before[i][1] = liberasurecode_get_aligned_data_size(d, lens[i]); before[i][2] = liberasurecode_get_minimum_encode_size(d); }
+        int rep = (int)rnd(6);
+        (void)liberasurecode_get_fragment_size(d, (int)lens[rep]); (void)liberasurecode_get_aligned_data_size(d, lens[rep]);   /* the last successful query */
+        liberasurecode_instance_destroy(d);
+        for (int i = 0; i < 6; i++) {
+            int j = (rep + i) % 6;
+            int f = liberasurecode_get_fragment_size(d, (int)lens[j]), al = liberasurecode_get_aligned_data_size(d, lens[j]), mn = liberasurecode_get_minimum_encode_size(d);
+            if (f >= 0 || al >= 0 || mn >= 0) oracle_fail("C08", "size queries on destroyed descriptor %d (be=%d k=%d, len=%llu) return %d %d %d (before destroy %d %d %d)", d, c.be, c.k, (unsigned long long)lens[j], f, al, mn, before[j][0], before[j][1], before[j][2]);
+        }
+        stat_add("wire.queries_after_destroy", 1);
+    }
     /* sizes: every accepted shape in thorough, a sample in quick */
     int shapes = 0;
     for (int be = 0; be < 3; be++) {
@@ -111,7 +130,6 @@ void suite_wire(int tier) {
 }
 
 /* ======================================================================= hdr (C09) */
-static void make_twin(unsigned char *f);
 static void consume_all(stripe_t *s, int fi, unsigned char *mut, int with_decode, int dest) {
     /* the three consuming APIs + validation on a stripe whose fragment fi is replaced by mut */
     cfg_t c = s->c;
@@ -214,13 +232,20 @@ void suite_hdr(int tier) {
             switch (rnd(5)) {
             case 0: wr32(mut + 0, rnd(2) ? rnd(40) : (uint32_t)rnd64()); break;             /* idx */
             case 1: wr32(mut + 4, rnd((uint32_t)(s.flen - HDR) + 1)); break;                /* size <= actual */
-            case 2: { uint64_t o = rnd(1 << 12); memcpy(mut + 12, &o, 8); } break;           /* orig size */
+            case 2: { static const uint64_t big[] = { 1ull << 31, (1ull << 31) + 5, 0xffffffffull, 1ull << 32, 1ull << 63, ~0ull, 0x7fffffffull };
+                      uint64_t o = rnd(3) ? rnd(1 << 12) : big[rnd(7)]; memcpy(mut + 12, &o, 8); } break;   /* orig size (also values that are negative as int) */
             case 3: mut[20] = (unsigned char)rnd(5); break;                                 /* checksum type */
             default: mut[21 + rnd(32)] ^= (unsigned char)(1 + rnd(255)); break;             /* stored checksum */
             }
             reseal(mut);
             consume_all(&s, fi, mut, 1, dest);
             stat_add("hdr.resealed_edit", 1);
+        }
+        /* every value of the checksum-type byte, re-sealed: the header stays acceptable whatever the type says */
+        for (int v = 0; v < 256; v += (tier ? 1 : 1 + (int)rnd(7))) {
+            memcpy(mut, orig, s.flen); mut[20] = (unsigned char)v; reseal(mut);
+            consume_all(&s, fi, mut, v < 8 || rnd(16) == 0, dest);
+            stat_add("hdr.ctype_values", 1);
         }
         /* random multi-byte edits */
         for (int r = 0; r < (tier ? 60 : 10); r++) {
@@ -332,6 +357,31 @@ void suite_cksum(int tier) {
             }
             stat_add("cksum.payload_corruptions", 1);
         }
+        /* the same buffer validated intact, corrupted in place, validated again (and the other way round) */
+        if (c.ct == 2 && nbits) for (int r = 0; r < 6; r++) {
+            int fj = (int)rnd(n);
+            memcpy(mut, all[fj], flen);
+            int v0 = is_invalid_fragment(desc, (char *)mut);
+            uint64_t bit = rnd64() % nbits;
+            mut[HDR + bit / 8] ^= (unsigned char)(1u << (bit % 8));
+            int v1 = is_invalid_fragment(desc, (char *)mut);
+            fragment_metadata_t md; int rmd = liberasurecode_get_fragment_metadata((char *)mut, &md);
+            mut[HDR + bit / 8] ^= (unsigned char)(1u << (bit % 8));
+            int v2 = is_invalid_fragment(desc, (char *)mut);
+            if (v0 || !v1 || v2 || rmd != 0 || !md.chksum_mismatch)
+                oracle_fail("C10", "fragment %d validated in place: intact %d, payload bit %llu flipped %d (metadata mismatch flag %d), restored %d — expected 0,1(1),0", fj, v0, (unsigned long long)bit, v1, rmd ? -1 : (int)md.chksum_mismatch, v2);
+            /* and inside a forced decode that uses this very buffer */
+            if (cfg_tolerance(c) >= 1 && n <= 40) {
+                char *fr[40]; for (int q = 0; q < n; q++) fr[q] = q == fj ? (char *)mut : all[q];
+                char *od = NULL; uint64_t ol = 0;
+                if (liberasurecode_decode(desc, fr, n, flen, 1, &od, &ol) == 0) liberasurecode_decode_cleanup(desc, od);
+                mut[HDR + bit / 8] ^= (unsigned char)(1u << (bit % 8));
+                od = NULL; int rc = liberasurecode_decode(desc, fr, n, flen, 1, &od, &ol);
+                if (rc == 0) { if (ol != len || memcmp(od, d, ol)) oracle_fail("C10", "forced decode used fragment %d corrupted in place after an earlier validation of the same buffer", fj); liberasurecode_decode_cleanup(desc, od); }
+                else oracle_fail("C10", "forced decode failed (%d) with one fragment corrupted in place", rc);
+            }
+            stat_add("cksum.inplace_sequences", 1);
+        }
         /* stored checksum edited and re-sealed */
         for (int r = 0; r < 10; r++) {
             memcpy(mut, all[fi], flen);
@@ -352,7 +402,7 @@ void suite_cksum(int tier) {
 }
 
 /* ======================================================================= endian (C11) */
-static void make_twin(unsigned char *f) {
+void make_twin(unsigned char *f) {
     rev(f + 0, 4); rev(f + 4, 4); rev(f + 8, 4); rev(f + 12, 8);
     for (int i = 0; i < 8; i++) rev(f + 21 + 4 * i, 4);
     rev(f + 55, 4); rev(f + 59, 4); rev(f + 63, 4);
@@ -395,6 +445,8 @@ void suite_endian(int tier) {
             memcpy(nat, s.all[i], s.flen); memcpy(twin, nat, s.flen); make_twin(twin);
             op_hdrinv(twin, 0); op_meta(nat, s.flen, 0); op_meta(twin, s.flen, 0);
             compare_md(nat, twin, "intact fragment");
+            /* the query is a pure reader of both renderings */
+            if (i < 2 || rnd(3) == 0) { op_meta(twin, s.flen, 2); op_meta(nat, s.flen, 2); stat_add("endian.readonly_queries", 2); }
             /* payload corruption must be seen through both */
             if (s.flen > HDR) {
                 uint64_t bit = rnd64() % ((s.flen - HDR) * 8);
@@ -520,6 +572,20 @@ void suite_valid(int tier) {
             wr32(mut + 63, lv[v]);
             op_fraginv(c, mut, s->flen, 0);
             stat_add("valid.libver_edits", 1);
+        }
+        /* writer versions around the first one that seals the metadata, with metadata damaged and NOT re-sealed:
+           from 1.2.0 on the stale checksum makes the header unacceptable, before it nothing is checked */
+        {
+            uint32_t vs[] = { 0x010200, 0x0101ff, 0x010201, 0x010100, 0x010604, 1 };
+            for (unsigned v = 0; v < 6; v++) for (int dmg = 0; dmg < 3; dmg++) {
+                memcpy(mut, s->all[rnd(s->n)], s->flen);
+                wr32(mut + 63, vs[v]);
+                if (dmg == 0) wr32(mut, (rd32(mut) + 1) % (uint32_t)nn);          /* another in-range index */
+                else if (dmg == 1) mut[12 + rnd(3)] ^= (unsigned char)(1u << rnd(8));   /* original size */
+                else mut[8 + rnd(4)] ^= 0x10;                                       /* backend metadata size */
+                op_hdrinv(mut, 0); op_meta(mut, s->flen, 0); op_fraginv(c, mut, s->flen, 0);
+                stat_add("valid.version_unsealed_damage", 1);
+            }
         }
         /* a set mismatch flag in the stored metadata */
         for (int ct = 0; ct < 4; ct++) {
